@@ -292,15 +292,16 @@ def run_shard(spec, R):
                         cv2.setRNGSeed(0)
                     n_before = R.counters["contract:call_observed"]
                     # unconfigured corrections of a workflow appear as None placeholders in the list
-                    tlist = [[corr], [None, corr], [corr, None], [None, None, corr], [None, corr, None]][(rnd_counter[0]) % 5]
+                    # ... and the sequence may be a tuple as well as a list
+                    tlist = [[corr], [None, corr], (corr,), [corr, None], [None, None, corr], (None, corr), [None, corr, None]][(rnd_counter[0]) % 7]
                     rnd_counter[0] += 1
-                    okc, built = R.guarded(f"construct_with:{label}", lambda: type(obj)(obj.img.copy(), transformations=list(tlist), **copy.deepcopy(obj.metadata())), key=lambda e, w: key)
+                    okc, built = R.guarded(f"construct_with:{label}", lambda: type(obj)(obj.img.copy(), transformations=type(tlist)(tlist), **copy.deepcopy(obj.metadata())), key=lambda e, w: key)
                     if okc:
                         same = (built.img.dtype == res.img.dtype and built.img.shape == res.img.shape and np.array_equal(built.img, res.img, equal_nan=True)
                                 and snap(built.metadata()) == snap(res.metadata()))
                         R.check(same, "construction_equals_overwrite",
                                 lambda: {"correction": label, "input": kind, "built": [str(built.img.dtype), list(built.img.shape)], "in_place": [str(res.img.dtype), list(res.img.shape)],
-                                         "transformations": ["None" if t is None else "correction" for t in tlist],
+                                         "transformations": [type(tlist).__name__] + ["None" if t is None else "correction" for t in tlist],
                                          "correction_called": R.counters["contract:call_observed"] > n_before}, group=label)
 
     import contextlib
